@@ -267,6 +267,11 @@ class Enumerator:
         return out
 
 
+def count_heads(s, heads):
+    """Number of nodes whose operator is in `heads`."""
+    return sum(1 for _, x in positions(s) if x[0] in heads)
+
+
 def enum_trees(T, n, cfg=None):
     return Enumerator(cfg).exactly(T, n)
 
@@ -676,7 +681,15 @@ def _leaf_options(root, sub, T, lits):
     if fv is not None:
         out.append(fv)
     out += [['v', t, k] for (t, k) in variables(root) if t == T]
-    out += [['l', T, v] for v in lits[T]]
+    # literals: only those that already occur in the tree -- a literal with properties of its own (the
+    # negative IntLiteral) must not be *introduced* by shrinking, or one defect's counterexample slides
+    # into the core of another (Power(Power(a, b), c) -> Power(-3, a))
+    present = []
+    for _, x in positions(root):
+        if x[0] == 'l' and x[1] == T and x[2] not in present:
+            present.append(x[2])
+    out += [['l', T, v] for v in lits[T] if v in present]
+    out += [['l', T, v] for v in present if v not in lits[T]]
     return [o for o in out if o != sub]
 
 
@@ -729,9 +742,10 @@ def shrink_candidates(s, cfg=None):
                 for (t, k) in variables(s):
                     if t == T:
                         yield replace_at(s, path, ['v', T, k])
-            # (the exponent of a real power stays a literal)  literals: towards the alphabet, in its order
+            # (the exponent of a real power stays a literal)  literals: towards the alphabet, in its order,
+            # keeping the sign (a negative literal is a different kind of leaf for the printers)
             for v in lits[T]:
-                if v != sub[2]:
+                if v != sub[2] and (T == 'l' or (str(v).startswith('-') == str(sub[2]).startswith('-'))):
                     yield replace_at(s, path, ['l', T, v])
     # all occurrences of one literal at once (a relation between two occurrences may be what fails)
     litpos = {}
